@@ -69,7 +69,7 @@ fn c20_main(tier: Tier) -> i32 {
         if let Some(e) = v["error"].as_str() {
             machinery = Some(format!("script {}: {}", idx, e));
         }
-        per_script.push(json!({"script": v["script"], "schedules": v["schedules"], "states": v["states"]}));
+        per_script.push(json!({"script": v["script"], "schedules": v["schedules"], "states": v["states"], "wall_ms": v["wall_ms"]}));
         for x in v["violations"].as_array().cloned().unwrap_or_default() {
             let sig = x["sig"].as_str().unwrap_or("?").to_string();
             let e = sigs.entry(sig).or_insert((idx, json!({"idx": idx, "script_index": v["script_index"], "script": v["script"], "choices": x["choices"], "preemption_bound": v["bound"]}), x["detail"].as_str().unwrap_or("").to_string(), 0));
@@ -94,37 +94,51 @@ fn c20_main(tier: Tier) -> i32 {
         let mut b = body.clone();
         b["detail"] = json!(detail);
         b["schedules_showing_it"] = json!(n);
-        let path = report::write_replay("C20", tier, sig, b);
+        let path = report::write_replay("C20", tier, sig, b.clone());
         // determinism: the recorded schedule must show the same violation when replayed in a fresh process
         // (with a deadline: replaying a "hang" hangs again)
-        let reproduced = match std::env::current_exe() {
-            Err(_) => false,
-            Ok(exe) => {
-                let out_path = format!("{}.replay-out", path);
-                let spawned = std::fs::File::create(&out_path).ok().and_then(|f| std::process::Command::new(exe).arg("replay").arg(&path).stdin(std::process::Stdio::null()).stdout(f).stderr(std::process::Stdio::null()).spawn().ok());
-                match spawned {
-                    None => false,
-                    Some(mut child) => {
-                        let t0 = std::time::Instant::now();
-                        let mut finished = false;
-                        while t0.elapsed() < std::time::Duration::from_secs(90) {
-                            if let Ok(Some(_)) = child.try_wait() {
-                                finished = true;
-                                break;
+        let run_replay = |deadline_s: u64| -> bool {
+            match std::env::current_exe() {
+                Err(_) => false,
+                Ok(exe) => {
+                    let out_path = format!("{}.replay-out", path);
+                    let spawned = std::fs::File::create(&out_path).ok().and_then(|f| std::process::Command::new(exe).arg("replay").arg(&path).stdin(std::process::Stdio::null()).stdout(f).stderr(std::process::Stdio::null()).spawn().ok());
+                    match spawned {
+                        None => false,
+                        Some(mut child) => {
+                            let t0 = std::time::Instant::now();
+                            let mut finished = false;
+                            while t0.elapsed() < std::time::Duration::from_secs(deadline_s) {
+                                if let Ok(Some(_)) = child.try_wait() {
+                                    finished = true;
+                                    break;
+                                }
+                                std::thread::sleep(std::time::Duration::from_millis(50));
                             }
-                            std::thread::sleep(std::time::Duration::from_millis(50));
+                            if !finished {
+                                let _ = child.kill();
+                                let _ = child.wait();
+                            }
+                            let text = std::fs::read_to_string(&out_path).unwrap_or_default();
+                            let _ = std::fs::remove_file(&out_path);
+                            (finished && text.contains(&format!("violation: {}", sig))) || (!finished && sig == "hang")
                         }
-                        if !finished {
-                            let _ = child.kill();
-                            let _ = child.wait();
-                        }
-                        let text = std::fs::read_to_string(&out_path).unwrap_or_default();
-                        let _ = std::fs::remove_file(&out_path);
-                        (finished && text.contains(&format!("violation: {}", sig))) || (!finished && sig == "hang")
                     }
                 }
             }
         };
+        let mut reproduced = run_replay(90);
+        let crash_like0 = sig.starts_with("killed-by-signal") || sig == "hang" || sig.starts_with("exit-") || sig == "deadlock" || sig.starts_with("panic@");
+        if !reproduced && !crash_like0 {
+            // the schedule alone does not show it in a fresh process: does the exploration of this script, repeated from its
+            // first schedule in a fresh process, show it again? (state of the client code that survives from one execution
+            // to the next — a static, a thread_local — makes a schedule depend on the schedules explored before it)
+            let mut b2 = b.clone();
+            b2["whole_exploration"] = json!(true);
+            b2["history_note"] = json!("the recorded schedule alone holds in a fresh process; the violation shows when the exploration of this script is repeated from its first schedule: state of the checked code survives from one execution to the next");
+            let _ = report::write_replay("C20", tier, sig, b2);
+            reproduced = run_replay(600);
+        }
         let crash_like = sig.starts_with("killed-by-signal") || sig == "hang" || sig.starts_with("exit-") || sig == "deadlock" || sig.starts_with("panic@");
         viol_json.push(json!({"sig": sig, "replay": path, "schedules": n, "reproduced_on_replay": reproduced}));
         if !reproduced && !crash_like {
@@ -152,6 +166,11 @@ fn c20_main(tier: Tier) -> i32 {
             "transitions": transitions,
             "traces_validated_against_impl": schedules,
             "samples": per_script.iter().take(4).collect::<Vec<_>>(),
+            "slowest_scripts": ({
+                let mut v: Vec<&serde_json::Value> = per_script.iter().collect();
+                v.sort_by_key(|x| std::cmp::Reverse(x["wall_ms"].as_u64().unwrap_or(0)));
+                v.into_iter().take(120).cloned().collect::<Vec<_>>()
+            }),
             "schedules": schedules,
             "scheduling_points": points,
             "scripts": rr.n_cases,
@@ -159,12 +178,12 @@ fn c20_main(tier: Tier) -> i32 {
             "preemption_bound_note": ({
                 let all = c20::scripts();
                 let core = all.iter().filter(|s| c20::is_core(s)).count();
-                if tier == Tier::Quick { format!("bound 1 on the {} core scripts (every script without end; every script whose end comes after two PDUs)", core) } else { format!("bound 2 on the {} core scripts, bound 1 on the other {} scripts (every end kind at every position 0..3)", core, all.len() - core) }
+                if tier == Tier::Quick { format!("bound 1 on {} of the {} core scripts (every script without end; every script whose end comes after two PDUs; the three rarer end kinds stay in quick under the plain packing only, the others are left to the thorough tier), bound 0 on the long scripts", all.iter().filter(|s| c20::is_quick(s)).count(), core) } else { format!("bound 2 on the {} core scripts, bound 1 on the other {} scripts (every end kind at every position 0..3)", core, all.len() - core) }
             }),
             "max_preemptions_used": maxp,
             "evaluations": schedules,
             "distinct_nontrivial": rr.nontrivial,
-            "rule": "every schedule (<= bound preemptions) of {receive thread, environment script, GUI actor} for each of the environment scripts = 9 packings of 3 bitmap PDUs into TLS records / TCP segments (one per record, two+one, three in one, a PDU across two records, a record across two segments, with a pause, with update-less PDUs of both length forms riding along, with a second PDU of 3 + 16384 bytes spanning two records, with a re-activation after the first PDU whose server PDUs are packed two and four to a record) x {no end, disconnect ultimatum, close_notify, abrupt close, undecodable PDU of RdpError kind, undecodable PDU of I/O kind, header-only TPKT frame, data on the MCS user channel} at every position 0..3. states/transitions = distinct abstract configurations (runnable set, running task, queue length, bytes consumed, closed flag, events forwarded, dead-select count, script and GUI positions) and (configuration, chosen task) edges observed at scheduling points, summed over scripts.",
+            "rule": "every schedule (<= bound preemptions) of {receive thread, environment script, GUI actor} for each of the environment scripts = 9 packings of 3 bitmap PDUs into TLS records / TCP segments (one per record, two+one, three in one, a PDU across two records, a record across two segments, with a pause, with update-less PDUs of both length forms riding along, with a second PDU of 3 + 16384 bytes spanning two records, with a re-activation after the first PDU whose server PDUs are packed two and four to a record) x {no end, disconnect ultimatum, close_notify, abrupt close, undecodable PDU of RdpError kind, undecodable PDU of I/O kind, header-only TPKT frame, data on the MCS user channel} at every position 0..3; plus four long runs explored without preemption (40 and 300 PDUs in one record, 700 PDUs two per record, 1500 records queued). states/transitions = distinct abstract configurations (runnable set, running task, queue length, bytes consumed, closed flag, events forwarded, dead-select count, script and GUI positions) and (configuration, chosen task) edges observed at scheduling points, summed over scripts.",
             "exhaustive": true,
             "violations_detail": viol_json,
             "known_findings_matched": known,
@@ -181,6 +200,12 @@ fn c20_main(tier: Tier) -> i32 {
     });
     println!("C20 {}: scripts={} schedules={} points={} states={} transitions={} max-preemptions={} violations={} known={} wall={:.1}s", tier.name(), rr.n_cases, schedules, points, states, transitions, maxp, unlisted, known, t0.elapsed().as_secs_f64());
     if let Some(m) = machinery {
+        if unlisted > 0 {
+            // every violation above was confirmed by a replay in a fresh process: it stands on its own, although the
+            // exploration as a whole could not be completed
+            println!("NOTE property=C20 exploration incomplete ({}); the violations above were each reproduced in a fresh process", m);
+            return 1;
+        }
         println!("MACHINERY-ERROR property=C20 {}", m);
         return 2;
     }
@@ -212,6 +237,24 @@ fn c20_replay(v: &serde_json::Value, path: &str) -> Option<i32> {
     let idx = v["script_index"].as_u64()? as usize;
     let choices: Vec<usize> = v["choices"].as_array()?.iter().map(|x| x.as_u64().unwrap_or(0) as usize).collect();
     let script = c20::scripts()[idx];
+    if v["whole_exploration"].as_bool() == Some(true) {
+        let bound = v["preemption_bound"].as_u64().unwrap_or(1) as u32;
+        println!("repeating the exploration of script {:?} with preemption bound {}", script, bound);
+        let st = runner::with_silenced_stdout(|| c20::explore(script, bound, None));
+        if let Some(e) = st.error {
+            println!("MACHINERY-ERROR {}", e);
+            return Some(2);
+        }
+        if st.violations.is_empty() {
+            println!("replay: no violation reproduced");
+            return Some(0);
+        }
+        for (sig, (_c, d, _n)) in &st.violations {
+            println!("violation: {} :: {}", sig, d);
+        }
+        println!("VIOLATION property=C20 replay={}", path);
+        return Some(1);
+    }
     println!("replaying script {:?} with schedule {:?}", script, choices);
     let st = runner::with_silenced_stdout(|| c20::explore(script, u32::MAX, Some(choices)));
     if let Some(e) = st.error {
